@@ -267,7 +267,7 @@ func operandSQL(e Expression, parentPrec int, right bool) string {
 		if c != nil && c.Operator == Not {
 			p = 3
 		}
-	case *BetweenExpression, *InExpression:
+	case *BetweenExpression, *InExpression, *AnyExpression, *AllExpression:
 		p = 4
 	}
 	if p < parentPrec || (p == parentPrec && (right || parentPrec == 4)) {
@@ -283,7 +283,8 @@ func (u *UnaryExpression) SQL() string {
 	inner := exprSQL(u.Expr)
 	switch u.Operator {
 	case Not:
-		return "NOT " + inner
+		// the operand of NOT is read at the comparison level: AND / OR below it need parentheses
+		return "NOT " + operandSQL(u.Expr, 3, false)
 	case PGPostfixFactorial:
 		return inner + "!"
 	case Plus:
@@ -349,7 +350,8 @@ func (b *BetweenExpression) SQL() string {
 	if b.Not {
 		not = "NOT "
 	}
-	return fmt.Sprintf("%s %sBETWEEN %s AND %s", exprSQL(b.Expr), not, exprSQL(b.Lower), exprSQL(b.Upper))
+	// all three operands are read above the comparison level
+	return fmt.Sprintf("%s %sBETWEEN %s AND %s", operandSQL(b.Expr, 4, true), not, operandSQL(b.Lower, 4, true), operandSQL(b.Upper, 4, true))
 }
 
 func (i *InExpression) SQL() string {
@@ -361,13 +363,13 @@ func (i *InExpression) SQL() string {
 		not = "NOT "
 	}
 	if i.Subquery != nil {
-		return fmt.Sprintf("%s %sIN (%s)", exprSQL(i.Expr), not, stmtSQL(i.Subquery))
+		return fmt.Sprintf("%s %sIN (%s)", operandSQL(i.Expr, 4, true), not, stmtSQL(i.Subquery))
 	}
 	vals := make([]string, len(i.List))
 	for idx, v := range i.List {
 		vals[idx] = exprSQL(v)
 	}
-	return fmt.Sprintf("%s %sIN (%s)", exprSQL(i.Expr), not, strings.Join(vals, ", "))
+	return fmt.Sprintf("%s %sIN (%s)", operandSQL(i.Expr, 4, true), not, strings.Join(vals, ", "))
 }
 
 func (e *ExistsExpression) SQL() string {
@@ -388,14 +390,14 @@ func (a *AnyExpression) SQL() string {
 	if a == nil {
 		return ""
 	}
-	return fmt.Sprintf("%s %s ANY (%s)", exprSQL(a.Expr), a.Operator, stmtSQL(a.Subquery))
+	return fmt.Sprintf("%s %s ANY (%s)", operandSQL(a.Expr, 4, true), a.Operator, stmtSQL(a.Subquery))
 }
 
 func (a *AllExpression) SQL() string {
 	if a == nil {
 		return ""
 	}
-	return fmt.Sprintf("%s %s ALL (%s)", exprSQL(a.Expr), a.Operator, stmtSQL(a.Subquery))
+	return fmt.Sprintf("%s %s ALL (%s)", operandSQL(a.Expr, 4, true), a.Operator, stmtSQL(a.Subquery))
 }
 
 func (f *FunctionCall) SQL() string {
